@@ -225,6 +225,8 @@ def do_op(k, name, a, b, text):
     elif name == "char_ret_null":
         v = simlib.charRetNull(a)
         res(k, "NONE" if v is None else v)
+    elif name == "str_ptr_out":
+        res(k, simlib.strPtrOut(b))
     elif name == "arr_fill_out":
         arr(k, simlib.arrFillOut(a))
     elif name == "ref_item":
